@@ -206,19 +206,23 @@ def firstMidLast : List Str → Str × List Str × Str
   | [a, b] => (a, [], b)
   | a :: b :: c :: r => (a, (b :: c :: r).dropLast, (c :: r).getLastD c)
 
-/-- `multiline_string_literal(token_text)` -/
-def readMulti (tok : Str) : Str :=
-  let string := slice3 tok
-  let all := splitlines string
-  let flm := firstMidLast all
-  let first := flm.1
-  let last := flm.2.2
-  let lines := if lstripC SP last ≠ [] then flm.2.1 ++ [last] else flm.2.1
+/-- second half of `multiline_string_literal`: least indentation of `lines`, dedent, join behind `first_line` -/
+def dedentJoin (first : Str) (lines : List Str) : Str :=
   let counts := lines.map leadSpaces
   let minc := minD counts
   let transformed := lines.map (·.drop minc)
   let nl : Str := if first ≠ [] ∧ transformed.length > 0 then [NL] else []
   first ++ nl ++ joinWith [NL] transformed
+
+/-- first half: first / middle / last line; a last line with content counts as a normal line -/
+def readMultiLines (all : List Str) : Str :=
+  let flm := firstMidLast all
+  let last := flm.2.2
+  let lines := if lstripC SP last ≠ [] then flm.2.1 ++ [last] else flm.2.1
+  dedentJoin flm.1 lines
+
+/-- `multiline_string_literal(token_text)` -/
+def readMulti (tok : Str) : Str := readMultiLines (splitlines (slice3 tok))
 
 /-- `string_literal(ctx)` on the text starting at the string token: the lexer decides the kind -/
 def readString (t : Str) : Option Str :=
@@ -288,9 +292,7 @@ def expsInt : Str → Option Int
   | s => (expsNat s).map Int.ofNat
 
 /-- `int(s)` (base 10) on `-?[0-9]+`; `none` = ValueError -/
-def pyInt10 : Str → Option Int
-  | '-' :: r => (readNat r).map fun n => - (Int.ofNat n)
-  | s => (readNat s).map Int.ofNat
+def pyInt10 (s : Str) : Option Int := readInt s
 
 /-! ### fixed point numbers (the value is the string) -/
 
@@ -325,12 +327,13 @@ def fixedFromStr (value : Str) : Except LErr Str :=
       | none => fixedMk (some i) ['0']
       | some f => fixedMk (some i) f
 
+def stripMinus : Str → Str
+  | '-' :: r => r
+  | s => s
+
 /-- DECIMAL: `-? [0-9]+ . [0-9]+` or `-? . [0-9]+` -/
 def isDecimalTok (s : Str) : Bool :=
-  let u := match s with
-    | '-' :: r => r
-    | _ => s
-  match splitFirst '.' u with
+  match splitFirst '.' (stripMinus s) with
   | (a, some b) => a.all isDigit && !b.isEmpty && b.all isDigit
   | (_, none) => false
 
@@ -374,9 +377,11 @@ structure PosMark where
   yRel : Int
 deriving DecidableEq, Repr
 
-/-- `str(SsbOpParamPositionMarker)` -/
+def posPrefix : Str := ['P', 'o', 's', 'i', 't', 'i', 'o', 'n', '<']
+
+/-- `str(SsbOpParamPositionMarker)`: `Position<'{name}', {x_final}, {y_final}>` -/
 def posMarkStr (p : PosMark) : Str :=
-  "Position<'".toList ++ p.name ++ "', ".toList ++ posFinal p.xRel p.xOff ++ ", ".toList ++ posFinal p.yRel p.yOff ++ ['>']
+  posPrefix ++ [SQ] ++ p.name ++ [SQ, ',', SP] ++ posFinal p.xRel p.xOff ++ [',', SP] ++ posFinal p.yRel p.yOff ++ ['>']
 
 /-! ### dungeon mode constants -/
 
